@@ -3,7 +3,7 @@
 only the property's text (nothing from /verif) for a mutation-seeding sub-agent."""
 import json, os, subprocess, sys
 V = "/verif"
-tmpl = open(os.path.join(V, "work/mutprompt_C01.txt")).read()
+tmpl = open(os.path.join(V, "tools/mutprompt_C01.txt")).read()
 props = {json.loads(l)["id"]: json.loads(l) for l in open(os.path.join(V, "properties.jsonl"))}
 c01 = props["C01"]
 head = subprocess.run("git -C /repo rev-parse --short HEAD", shell=True, capture_output=True, text=True).stdout.strip()
@@ -23,7 +23,9 @@ for arg in sys.argv[1:]:
         prev.append(json.load(open(mf))["what"])
     if prev:
         t = t.replace("YOUR TASK:", "AVOID REPEATS: earlier rounds already produced the following change(s) for this property; yours must be of a different kind, in a different function (ideally a different file) and need a different trigger:\n" + "\n".join("  - " + x for x in prev) + "\n\nYOUR TASK:", 1)
-    if hint:
+    if hint.startswith("@"):
+        t = t.replace("YOUR TASK:", "TARGET HINT: " + hint[1:] + "\n\nYOUR TASK:", 1)
+    elif hint:
         t = t.replace("YOUR TASK:", "TARGET HINT: this round explores parts of the code earlier rounds did not touch. Make your change in `%s` (or, if nothing there can break this property, in the code closest to it that is NOT one of the functions named above); the property text still decides what counts as broken.\n\nYOUR TASK:" % hint, 1)
     w = "/tmp/mut_" + pid
     os.makedirs(w + "_out", exist_ok=True)
